@@ -162,6 +162,13 @@ CLAIMED = {
             'valid in the theory of equality under every equality pattern of the four variables; the only caller conjoins the result to the input. Equality substitution, ITE / div-mod / '
             'distinct elimination, purification and Boolean flattening are value-level rewrites and are not decided.',
             'static analysis: abstract evaluation of the pattern matcher over a finite domain of input patterns + exhaustive validity check over equality patterns (no code is compiled or run)', ''),
+    'C08': ('other',
+            'Static, the propositional skeleton only (that a returned formula is implied by A, inconsistent with B and over the shared vocabulary depends on the run-time proof, the labelling '
+            'functions and the theory interpolators, which are not decided): the combination rules are those of the labelled interpolation system of which all six supported Boolean algorithms '
+            'are instances - inner node: I1 or I2 / I1 and I2 / a formula equivalent to (I1 or p) and (I2 or not p) for a pivot labelled a / b / ab, the other parent for an assumed pivot; '
+            'leaf: disjunction of the literals labelled with the other class for an A-leaf, conjunction of their negations for a B-leaf - established by abstract evaluation of '
+            'compInterpLabelingInner and getInterpolantForOriginalClause over symbolic interpolants and literals plus truth tables; the proof builder puts the positive pivot occurrence first.',
+            'static analysis: abstract evaluation of the two combination functions over symbolic inputs (all pivot labels / leaf classes / literal signs) + truth-table equivalence with the rules of the labelled interpolation system', ''),
     'C15': ('other',
             'Static: (1) UB-obligation engine - every compiler-inserted sanitizer obligation (signed overflow, narrowing, sign change, float cast) in FastRational.h/.cc is '
             'either deleted by LLVM -O2 range analysis or listed in a table with a written justification and the guards it relies on (guards must still be present); the IR '
@@ -183,7 +190,6 @@ CLAIMED = {
 }
 
 NOT_APPLICABLE = {
-    'C08': 'implication/unsat/vocabulary conditions on formulas built from a runtime proof; only a frozen-fragment match could see the labelling rules, which would fire on behaviour-preserving edits',
     'C11': 'validity in the theory of clauses built from runtime solver state; the one shape-visible clause (positive Farkas coefficients) is claimed under C26',
     'C12': 'propositional consequence of a runtime clause database (RUP) cannot be decided from source shape',
     'C30': 'termination needs ranking arguments for CDCL with restarts, Bland pivoting and lookahead; polling a stop flag is not termination',
